@@ -48,6 +48,9 @@ structure Client where
   lgr        : Int  := 0
   /-- ghost: RDY was lowered (or CLS sent) since the last delivery -/
   decr       : Bool := false
+  /-- micro-step model of the pump: the guard was evaluated true and the pump is in its `select`
+  with the queue cases enabled (one delivery is licensed) -/
+  armed      : Bool := false
 deriving DecidableEq, Repr
 
 inductive Ev where
@@ -65,6 +68,7 @@ inductive Ev where
   | closed (conn : Nat)
   | joined (conn : Nat)
   | pauseSet (p : Bool)
+  | guardOk (conn : Nat)
 deriving DecidableEq, Repr
 
 structure Conf where
@@ -213,12 +217,17 @@ inductive Op where
   /- micro-steps of FIN (window F8) -/
   | finChan (conn id : Nat)
   | finClient (conn : Nat)
+  /- micro-steps of the delivery pump: guard evaluation | select + send (overshoot window) -/
+  | guard (conn : Nat)
+  | deliverArmed (conn id : Nat) (now : Int)
 deriving DecidableEq, Repr
 
 /-- the atomic operations: everything except the two halves of the split FIN -/
 def Op.atomic : Op → Bool
   | .finChan .. => false
   | .finClient .. => false
+  | .guard .. => false
+  | .deliverArmed .. => false
   | _ => true
 
 def nFanout (h : List Ev) (id : Nat) : Nat :=
@@ -226,6 +235,18 @@ def nFanout (h : List Ev) (id : Nat) : Nat :=
 
 def touchPri (conf : Conf) (now msgTimeout dts : Int) : Int :=
   if now + msgTimeout - dts ≥ conf.maxMsgTimeout then dts + conf.maxMsgTimeout else now + msgTimeout
+
+/-- the effects of one delivery to client `cl` (= connection `k`) of the queued message `id` -/
+def doDeliver (c : Chan) (cl : Client) (k id : Nat) (now : Int) : Chan × Out :=
+  match findE c.msgs id with
+  | none => (c, .reject "not-queued")
+  | some e =>
+    if !isQueued e then (c, .reject "not-queued") else
+    ({ c with msgs := setE c.msgs id (e.att + 1) (.inflight k (now + cl.msgTimeout) now),
+              memLen := if c.memLen > 0 then c.memLen - 1 else c.memLen,
+              dqLen := if c.memLen > 0 then c.dqLen else c.dqLen - 1,
+              clients := updC c.clients k (fun cl => { cl with inFlight := cl.inFlight + 1, msgCount := cl.msgCount + 1, lgr := cl.rdy, decr := false, armed := false }),
+              hist := Ev.deliver k id (e.att + 1) :: c.hist }, .msg (e.att + 1))
 
 def step (conf : Conf) (c : Chan) : Op → Chan × Out
   | .put id =>
@@ -275,16 +296,23 @@ def step (conf : Conf) (c : Chan) : Op → Chan × Out
     match findC c.clients k with
     | none => (c, .reject "no-client")
     | some cl =>
-      if !ready c.paused cl then (c, .reject "guard") else
-      match findE c.msgs id with
-      | none => (c, .reject "not-queued")
-      | some e =>
-        if !isQueued e then (c, .reject "not-queued") else
-        ({ c with msgs := setE c.msgs id (e.att + 1) (.inflight k (now + cl.msgTimeout) now),
-                  memLen := if c.memLen > 0 then c.memLen - 1 else c.memLen,
-                  dqLen := if c.memLen > 0 then c.dqLen else c.dqLen - 1,
-                  clients := updC c.clients k (fun cl => { cl with inFlight := cl.inFlight + 1, msgCount := cl.msgCount + 1, lgr := cl.rdy, decr := false }),
-                  hist := Ev.deliver k id (e.att + 1) :: c.hist }, .msg (e.att + 1))
+      if !ready c.paused cl then (c, .reject "guard") else doDeliver c cl k id now
+  | .guard k =>
+    -- top of the pump loop: `if subChannel == nil || !client.IsReadyForMessages()` …
+    match findC c.clients k with
+    | none => (c, .reject "no-client")
+    | some cl =>
+      if ready c.paused cl then
+        ({ c with clients := updC c.clients k (fun cl => { cl with armed := true }), hist := Ev.guardOk k :: c.hist }, .ok)
+      else
+        ({ c with clients := updC c.clients k (fun cl => { cl with armed := false }) }, .reject "guard")
+  | .deliverArmed k id now =>
+    -- … `select` picked a queue case although `ReadyStateChan` may be ready too: the send happens
+    -- on the strength of the earlier guard evaluation
+    match findC c.clients k with
+    | none => (c, .reject "no-client")
+    | some cl =>
+      if !cl.armed then (c, .reject "not-armed") else doDeliver c cl k id now
   | .sampleDrop k id =>
     -- `if sampleRate > 0 && rand.Int31n(100) > sampleRate { continue }`
     match findC c.clients k with
